@@ -169,3 +169,42 @@ extern "C" void harness_cell_chunk_sym() {
   }
   v_witness("C07 symbolic cell chunk accepted");
 }
+
+// ---- EDGE chunk, vertex handle bytes a, b and handle_offset from a BOUNDARY SET, enumerated through a symbolic selector (8 cases per query):
+//      a, b in {0, 3, 4, 255}, handle_offset in {0, 1, 4, 2^64-1}: 64 cases (v_param(2) = block of 8).  The fully symbolic variants
+//      (harness_edge_chunk: no verdict in 600 s; two symbolic bytes + symbolic offset: no verdict in 900 s) explode in read_edges'
+//      error path, which formats the symbolic 64-bit handles into its message (std::to_string, inlined digit loops).
+static void edge_case(unsigned idx) {
+  static const uint8_t HB[4] = {0, 3, 4, 255};
+  static const uint64_t HO[4] = {0ull, 1ull, 4ull, ~0ull};
+  if (idx >= 64) return;
+  const uint8_t a = HB[idx & 3], b = HB[(idx >> 2) & 3]; const uint64_t hoff = HO[(idx >> 4) & 3];
+  TopologyKernel m; m.enable_bottom_up_incidences(false); m.add_n_vertices(4);
+  VIn in(g_empty, 0, ~0ull);
+  PropertyCodecs codecs; ReadOptions opt;
+  BinaryFileReader r(in.stream(), opt, codecs);
+  OVMVerifAccess::prepare(r, m, v_param(1) != 0, TopoType::Polyhedral, 4, 1, 0, 0, 4, 0, 0, 0);
+  std::vector<uint8_t> bytes; bytes.reserve(40);
+  topo_header(bytes, 0, 1, 1 /*edge*/, 2, 0 /*None*/, 1 /*U8*/, hoff);
+  bytes.push_back(a); bytes.push_back(b);
+  bool accepted = run_chunk(r, bytes);
+  const uint64_t ea = (uint64_t)a + hoff, eb = (uint64_t)b + hoff;   // wraps for hoff = 2^64-1: 255 + hoff = 254, 4 + hoff = 3, ...
+  const bool valid = ea < 4 && eb < 4;
+  if (!accepted) {
+    v_assert(!valid, "C06 reader vs format: an edge chunk that is valid under the published layout (in-range handles after adding handle_offset) is accepted");
+    v_witness("C07 boundary edge chunk rejected"); return;
+  }
+  v_assert(m.n_edges() == 1 && OVMVerifAccess::edges_read(r) == 1, "C07 reader: accepted one-edge chunk adds exactly one edge");
+  if (m.n_edges() == 1) {
+    int from = m.edge(EH(0)).from_vertex().idx(), to = m.edge(EH(0)).to_vertex().idx();
+    v_assert(from >= 0 && from < 4 && to >= 0 && to < 4, "C07 reader: every vertex handle stored by an accepted edge chunk designates an existing vertex");
+    v_assert((uint64_t)from == ea && (uint64_t)to == eb, "C07 reader: stored vertex handle == file value + handle_offset (published format)");
+  }
+  v_witness("C07 boundary edge chunk accepted");
+}
+static void do_case(unsigned i) { edge_case(v_param(2) * 8 + i); }
+extern "C" void harness_edge_chunk_enum() {
+  unsigned sel = v_nondet_u32();
+  v_assume(sel < 8);
+  dispatch<CaseW, 8>(sel);
+}
